@@ -265,7 +265,11 @@ def run(ctx):
     for _ in range(10 if quick else 80):
         w = [ctx.rng.randrange(2) for _ in range(ctx.rng.randint(0, 3))]
         ps = [([ctx.rng.randrange(2) for _ in range(ctx.rng.randint(0, 2))], [ctx.rng.randrange(2) for _ in range(ctx.rng.randint(0, 2))]) for _ in range(ctx.rng.randint(1, 3))]
-        pairs = ctx.rng.sample([(x, y) for x in xs2 for y in xs2], 10) + [(w, w)] + [p for p in ps]
+        if ctx.rng.random() < 0.6:   # the empty pair, listed after other pairs (or twice)
+            ps.insert(ctx.rng.randint(1, len(ps)), ([], []))
+        if ctx.rng.random() < 0.2:
+            ps.append(([], []))
+        pairs = ctx.rng.sample([(x, y) for x in xs2 for y in xs2], 10) + [(w, w)] + [p for p in ps] + [([], [])]
         jobs.append({"queries": [{"op": "fst_from", "kind": "from_string", "xs": w, "pairs": pairs}, {"op": "fst_from", "kind": "from_pairs", "ps": ps, "pairs": pairs}]})
         cases.append((w, ps, pairs))
     res = run_w(jobs)
